@@ -317,7 +317,8 @@ def fast_subset_text(prog, rng):
         # an unconnected pin is written `.p()` with nothing between the parentheses
         if it["k"] == "gate":
             args = [it["out"]] + [opnd(e) for e in it["ins"]]
-            stm.append(it["t"] + W() + "g_%d" % k + w() + "(" + w() + ("," + W()).join(args) + w() + ");")
+            iname = "g_%d" % k if rng.random() < 0.8 else "ABCDEFGHJK"[k % 10]        # one-character instance names too
+            stm.append(it["t"] + W() + iname + w() + "(" + w() + ("," + W()).join(args) + w() + ");")
         elif it["k"] == "assign":
             stm.append("assign" + W() + it["lhs"] + w() + "=" + w() + opnd(it["rhs"]) + w() + ";")
         else:
